@@ -31,7 +31,7 @@ func runStateCache(args []string) (map[string]any, error) {
 		}
 		sc := bufio.NewScanner(f)
 		sc.Buffer(make([]byte, 1<<20), 1<<26)
-		vts := []string{"mut", "leaf", "full"}
+		vts := []string{"mut", "leaf", "full", "fullnv", "ext"}
 		for sc.Scan() {
 			line := bytes.TrimSpace(sc.Bytes())
 			if len(line) == 0 {
